@@ -375,7 +375,7 @@ macro_rules! zip_h {
 }
 
 // the code path for element types WITHOUT drop glue (needs_drop == false selects the ManuallyDrop branches)
-// @gen macro=zip_plain name=c08_zip_plain props=C08 quick=U0,0;U1,1;U4,4 thorough=U3,3;U7,7
+// @gen macro=zip_plain name=c08_zip_plain props=C08 quick=U0,0;U1,1;U4,4;U5,5 thorough=U3,3;U7,7;U9,9;U13,13
 macro_rules! zip_plain {
     ($name:ident, $N:ty, $n:expr) => {
         #[kani::proof]
